@@ -560,6 +560,10 @@ class C01(WorkerProp):
             "w in {1..8,64,65534,65535}, conformant ACK scripts with injected dup/stale/partial/future ACKs, time-outs, garbage, and adversarial random ACKs; "
             "non-trivial = distinct case with at least one receive attempt consumed")
 
+    def compare(self, line, model, impl):
+        # `skip`: a sandbox the model cannot hold (sparse files beyond 4 GiB) - the statement is evaluated on the observation alone
+        return model == "skip" or WorkerProp.compare(self, line, model, impl)
+
     def generate(self, tier, rng):
         n = self.n_quick if tier == "quick" else self.n_thorough
         L = directed_sender() + [gen_sender(rng, tier) for _ in range(n)]
@@ -576,6 +580,20 @@ class C01(WorkerProp):
             fs = "srv/%s=gen:%d:%d,srv/%s=gen:%d:%d" % (asked, 21 + k, 3 + k, other, 27 + k, 100 + k)
             for flags in ["-", "s"]:
                 L.append("req %s %s %s %s" % (root, flags, fs, rq("rrq", asked.encode(), rng.choice([(), (("blksize", 8),)])).hex()))
+        # ... or by a control character where the neighbour has a printable stand-in (TAB, ESC, DEL, U+0001; `~xx` is the spec's escape)
+        for k, (ctl, standin) in enumerate([("\t", "?"), ("\x1b", "?"), ("\x7f", "?"), ("\x01", "_"), ("\t", " "[:0] + "-"), ("\x0b", ".")]):
+            asked = "fw" + ctl + "x.bin"
+            spec = "fw~%02xx.bin" % ord(ctl)
+            for other in ("fw" + standin + "x.bin", "fwx.bin"):
+                fs = "srv/%s=gen:%d:%d,srv/%s=gen:%d:%d" % (spec, 31 + k, 5 + k, other, 37 + k, 120 + k)
+                for flags in ["-", "s"]:
+                    L.append("req %s %s %s %s" % (root, flags, fs, rq("rrq", asked.encode(), rng.choice([(), (("blksize", 8),), (("tsize", 0),)])).hex()))
+        # files of 4 GiB and more (sparse: they cost nothing): the first window of the download carries full blocks of the file's first bytes,
+        # whatever the length is modulo 2^32 (the model cannot hold such a file: implementation-side statement only)
+        for j, n in enumerate([2 ** 32, 2 ** 32 + 1000, 2 ** 32 + 512, 2 ** 33 + 5, 2 ** 32 - 1]):
+            for flags in ["-", "s"]:
+                opts = [(), (("blksize", 1024), ("windowsize", 2)), (("tsize", 0), ("windowsize", 3))][j % 3]
+                L.append("req %s %s srv/huge=sparse:%d %s" % (root, flags, n, rq("rrq", b"huge", opts).hex()))
         if tier == "thorough":
             L.append("snd 1428 4000 5000 1 0 gen:9437184:5 A4000@0 A6609@0")
             L.append("snd 9000 1000 5000 1 0 gen:20000003:9 A1000@0 A2000@0 A2223@0")
@@ -651,6 +669,11 @@ class C07(WorkerProp):
                 root = (self.sandbox + "/k%d" % (k % 7)).encode().hex()
                 k += 1
                 L.append("errstop %s %s srv/f=gen:40:3 %s %d" % (root, flags, rq("rrq", b"f", (("timeout", 1), ("blksize", 8), ("windowsize", 2))).hex(), code))
+            # ... whatever the length of its text: longer than a default block, longer than the sender's receive buffer (516 bytes)
+            for n in ([511, 512, 513, 600, 1400] if tier == "thorough" else [512, rng.choice([513, 600, 1400])]):
+                root = (self.sandbox + "/k%d" % (k % 7)).encode().hex()
+                k += 1
+                L.append("errstop %s %s srv/f=gen:40:3 %s %d:%d" % (root, flags, rq("rrq", b"f", (("timeout", 1), ("blksize", 8), ("windowsize", 2))).hex(), rng.randint(0, 7), n))
         # through the server, in real time: an upload whose client falls silent is given up after MAX_RETRIES acknowledged time-outs (the
         # partial file disappears then, not earlier and not never), in both port modes
         for flags in ["-", "s"]:
@@ -751,6 +774,16 @@ class C02(WorkerProp):
                 for sched in ["0101010101", "0011001100", "0100000000", "0010000000"] if tier == "thorough" else [rng.choice(["0101010101", "0010000000"]), "0100000000"]:
                     second = rng.choice(["u:up2:%d:1:gen:%d:3" % (b2, 3 * b2 + 5), "d:c:%d:1" % b2])
                     L.append("multi %s %s srv/c=gen:16:3 %s u:up1:%d:1:gen:%d:7 %s" % (root, flags, sched, b1, 2 * b1 + 100, second))
+        # through the server: what the write request declares (tsize larger / smaller / equal / absurd, other options) has no bearing on what
+        # is stored: the bytes that were sent and acknowledged
+        from .p_server import rq, upload_plan
+        for j, flags in enumerate(["-", "s", "o", "so", "k"]):
+            root = (self.sandbox + "/t%d" % j).encode().hex()
+            for base_opts in [(), (("blksize", 8),), (("blksize", 1024), ("windowsize", 2)), (("windowsize", 3),)]:
+                sent = len(upload_plan(base_opts)[3])
+                for ts in [0, 1, sent - 1, sent, sent + 1, 4096, 2049, 1000000, 2 ** 32 + 5]:
+                    opts = base_opts + (("tsize", ts),) if rng.random() < 0.5 else (("tsize", ts),) + base_opts
+                    L.append("req %s %s srv/old=0102 %s" % (root, flags, rq("wrq", rng.choice([b"up", b"sub/up", b"old"]), opts).hex()))
         return L
 
     retry_env = {"HARNESS_SLOW": "1"}
@@ -759,19 +792,26 @@ class C02(WorkerProp):
         if line.startswith("multi "):
             from .p_server import C12
             return C12.oracle(self, line, impl)
+        if line.startswith("req "):
+            from .p_server import upload_stored_oracle
+            return upload_stored_oracle(line, impl)
         return WorkerProp.oracle(self, line, impl)
 
     def nontrivial(self, line, impl):
+        if line.startswith("req "):
+            return impl.startswith("r1=")
         return impl.startswith("c0=") if line.startswith("multi ") else WorkerProp.nontrivial(self, line, impl)
 
     def classify(self, line, impl, res):
         if line.startswith("multi "):
             res.count("server-level:overlapping-uploads:flags=" + line.split(" ")[2])
+        elif line.startswith("req "):
+            res.count("server-level:upload-with-declared-size:flags=" + line.split(" ")[2])
         else:
             WorkerProp.classify(self, line, impl, res)
 
     def shrink(self, line):
-        return [] if line.startswith("multi ") else WorkerProp.shrink(self, line)
+        return [] if line.startswith(("multi ", "req ")) else WorkerProp.shrink(self, line)
 
 
 class C16(WorkerProp):
@@ -806,6 +846,11 @@ class C16(WorkerProp):
                          (("tsize", 0),), (("windowsize", 1),)]:
                 L.append("req %s %s srv/f=gen:40:3 %s" % (root, flags, rq("rrq", b"f", opts).hex()))
                 L.append("req %s %s srv/f=gen:40:3 %s" % (root, flags, rq("wrq", b"up", opts).hex()))
+        # "(the initial OACK, ACK 0 or ERROR reply is sent once)": refusals of every kind in duplicate mode
+        for flags in ["1", "2", "s1", "s3", "r2", "sr1"]:
+            for kind, name in [("rrq", b"missing"), ("rrq", b"../f"), ("wrq", b"f"), ("wrq", b"../up"), ("rrq", b"sub/missing")]:
+                for opts in [(), (("blksize", 8), ("windowsize", 2))]:
+                    L.append("req %s %s srv/f=gen:40:3,srv/sub/ %s" % (root, flags, rq(kind, name, opts).hex()))
         return L
 
     retry_env = {"HARNESS_SLOW": "1"}
@@ -834,6 +879,13 @@ class C16(WorkerProp):
         c = Case(line)
         r1, conv, fs = parse_req_obs(impl)
         toks = [] if conv in ("-", ".") else conv.split(" ")
+        if " error " in r1:
+            # a refusal: "the initial OACK, ACK 0 or ERROR reply is sent once"
+            extra = [t for t in toks if t.startswith("+")]
+            if extra:
+                return ("with --duplicate-packets %d the refusal (%s) was followed by %d more datagram(s): %s" % (c.dup, r1, len(extra), " ".join(extra[:4])),
+                        "refusal-repeated")
+            return None
         want = c.dup + 1
         runs = []
         for t in toks:
